@@ -415,13 +415,16 @@ func init() {
 			return mkStr(strconv.Itoa(int(sextW(a[0].N, 64)))), true
 		},
 		"strings.Join": func(in *Interp, fr *Frame, a []Value) (Value, bool) {
-			var parts []string
+			out := mkStr("")
 			if a[0].R != nil {
-				for _, p := range a[0].R.(*SliceV).S {
-					parts = append(parts, concStrArg(p))
+				for i, p := range a[0].R.(*SliceV).S {
+					if i > 0 {
+						out = concatStr(out, a[1])
+					}
+					out = concatStr(out, p) // ropes: symbolic / atom segments are kept
 				}
 			}
-			return mkStr(strings.Join(parts, concStrArg(a[1]))), true
+			return out, true
 		},
 	}
 	for k, f := range base {
